@@ -18,7 +18,7 @@ ghost-free: it only talks about the emitted bytes and the label log.
 tables) through the compiler; `closure_region_upvalues` is the rule for `closureCode`.
 -/
 namespace Cao.Compiler
-open Cao Cao.Bytecode
+open Cao Cao.Bytecode Cao.Compiler.Wf
 
 /-! ## the level structure of a byte range -/
 
